@@ -55,6 +55,7 @@ theorem lazy_demand {α β : Type} (per : α → List β) (xs : List α) (k : Na
     (M.run per k (M.init xs)).2.pulled = pullsFor per xs k := by
   have := run_pulled per k (M.init xs) (by simpa [M.init] using hk)
   simp only [M.init, List.length_nil, Nat.sub_zero, Nat.zero_add] at this
+  show (M.run per k ⟨xs, [], 0⟩).2.pulled = _
   rw [this]
   split
   · omega
